@@ -122,9 +122,15 @@ abbrev Res := World × Option Errno
 
 /-! ### physical operations (no path resolution; `q` is a physical path whose parent is a directory) -/
 
+/-- a directory created inside a set-group-ID directory inherits that bit (Linux) -/
+def inheritedBits (w : World) (parent : Path) : Nat :=
+  match find w parent with
+  | some n => n.mode &&& 0o2000
+  | none => 0
+
 def pMkdir (w : World) (q : Path) (mode : Nat) : Res :=
   if (find w q).isSome then (w, some .exist)
-  else (touch (AMap.insert w q (dirNode mode)) q.dropLast, none)
+  else (touch (AMap.insert w q (dirNode (mode ||| inheritedBits w q.dropLast))) q.dropLast, none)
 
 def pRemove (w : World) (q : Path) : Res :=
   match find w q with
